@@ -550,7 +550,14 @@ def install(I):
             acc = I.call(f, [acc, x], {}, fr)
         return acc
 
-    I.ext_modules['functools'] = PyModule('functools', {'partial': bi('partial', _partial), 'wraps': bi('wraps', _wraps), 'reduce': bi('reduce', _reduce)})
+    def _lru_cache(I, fr, args, kwargs):
+        # memoisation of a pure function is the identity semantically
+        if args and isinstance(args[0], (ip.FuncV,)):
+            return args[0]
+        return ip.Builtin('lru_cache-decorator', lambda I, fr, a, k: a[0])
+
+    I.ext_modules['functools'] = PyModule('functools', {'partial': bi('partial', _partial), 'wraps': bi('wraps', _wraps), 'reduce': bi('reduce', _reduce),
+                                                        'lru_cache': bi('lru_cache', _lru_cache)})
 
     def _product(I, fr, args, kwargs):
         import itertools
